@@ -84,7 +84,13 @@ type Case struct {
 	//   badbase    the base URL does not parse (url.JoinPath fails)
 	//   nilctx     a nil context is passed (http.NewRequestWithContext fails)
 	//   marshal    the struct argument cannot be marshalled (NaN)
+	//   redirect_loop  the server answers every request with Status (a 3xx) and a Location pointing
+	//              at itself: http.Client gives up after 10 redirects and returns the last response
+	//              TOGETHER with an error
 	Fault string `json:"fault"`
+	// srv: the first request is answered with this 3xx status and a Location header, the
+	// redirected request with Status/Body (http.Client follows the redirect)
+	Via int `json:"via"`
 }
 
 type ValObs struct {
@@ -199,6 +205,8 @@ func (e *sentinel) Error() string { return "c10drv: transport sentinel #" + strc
 type script struct {
 	status  int
 	body    string
+	via     int  // answer the first request with this status and a Location to the final answer
+	loop    bool // answer every request with status and a Location to itself
 	hang    bool // do not answer until released
 	stall   bool // send status, headers and body, flush, then wait until released
 	release chan struct{}
@@ -216,6 +224,16 @@ func handler(w http.ResponseWriter, r *http.Request) {
 		return
 	}
 	s := v.(*script)
+	if s.loop {
+		w.Header().Set("Location", r.URL.Path)
+		w.WriteHeader(s.status)
+		return
+	}
+	if s.via != 0 && r.URL.Query().Get("c10final") == "" {
+		w.Header().Set("Location", r.URL.Path+"?c10final=1")
+		w.WriteHeader(s.via)
+		return
+	}
 	if s.hang {
 		select {
 		case <-s.release:
@@ -259,8 +277,11 @@ func (st *state) mw() middleware.Middleware {
 	return func(next http.RoundTripper) http.RoundTripper {
 		return middleware.RoundTripper(func(req *http.Request) (*http.Response, error) {
 			atomic.AddInt32(&st.requests, 1)
-			st.verb = req.Method
-			st.lastURL = req.URL.String()
+			if st.verb == "" {
+				// what the generated method asked for (a followed redirect may change both)
+				st.verb = req.Method
+				st.lastURL = req.URL.String()
+			}
 			c := st.c
 			mk := func() *http.Response {
 				var f error
@@ -419,7 +440,7 @@ func runCase(c Case) (o Obs) {
 	st.cancel = cancel
 	var sc *script
 	if c.Mode == "srv" {
-		sc = &script{status: int(c.Status), body: c.Body}
+		sc = &script{status: int(c.Status), body: c.Body, via: c.Via}
 	}
 	clientTimeout := time.Duration(0)
 	nilCtx := false
@@ -445,6 +466,8 @@ func runCase(c Case) (o Obs) {
 		case "bodytimeout":
 			sc = &script{status: int(c.Status), body: c.Body, stall: true}
 			clientTimeout = 400 * time.Millisecond
+		case "redirect_loop":
+			sc = &script{status: int(c.Status), loop: true}
 		case "badbase":
 			base = "http://[::1"
 		case "nilctx":
